@@ -162,6 +162,18 @@ def block_codec_oracle(ctx, q):
         plan.append((len(L), f, ch, "f", 5))
         L.append("close 0")
         sid = (sid + 1) % 30
+        # requests larger than the internal staging buffers (2048 .. 4096 items) and not a multiple of them, every caller type, data to spare
+        big = 14000 // ch
+        L.append("open 0 %d w %x %d 8000" % (sid, f, ch))
+        L.append("w 0 s f %d %s" % (big, " ".join(str(rng.range(-20000, 20000)) for _ in range(40))))
+        L.append("close 0")
+        L.append("open 0 %d r 0 0 0" % sid)
+        for (t, items) in (("i", 4097), ("f", 5000), ("d", 2049), ("s", 4099)):
+            k = (items + ch - 1) // ch
+            L.append("r 0 %s i %d" % (t, k * ch))
+            plan.append((len(L), f, ch, "i", k))
+        L.append("close 0")
+        sid = (sid + 1) % 30
     script = "\n".join(L) + "\n"
     rc, hl, err = sdrive.run_harness(script, "C05_block")
     if rc != 0:
